@@ -90,9 +90,24 @@ def c_cx(rng):
 def c_sjoin(rng):
     import spatialpandas as sp
     from spatialpandas import sjoin
-    pts = gen.case('point', rng, derive=False, n=rng.choice([0, 1, 3, 5, 8]), p_missing=0.15)
     rkind = rng.choice(['polygon', 'multipolygon', 'polygon', 'line', 'multipoint', 'point', 'multiline'])
     rs = gen.case(rkind, rng, derive=False, n=rng.choice([0, 1, 2, 3, 4]), p_missing=0.15, p_empty=0.0)
+    # left points: random, but about half of them placed near / inside the right shapes so that matches are
+    # common; missing points in between
+    nl_ = rng.choice([0, 1, 3, 5, 8])
+    fc = [c for el in rs.view if el is not None for c in oracle.flat_coords(rkind, el)]
+    els = []
+    for _ in range(nl_):
+        r = rng.random()
+        if r < 0.25:
+            els.append(None)
+        elif r < 0.65 and len(fc) >= 2:
+            k = rng.randrange(len(fc) // 2)
+            dx, dy = rng.choice([(0.0, 0.0), (0.5, 0.5), (1.0, 1.0), (-0.5, 0.5), (1.0, 0.5)])
+            els.append([fc[2 * k] + dx, fc[2 * k + 1] + dy])
+        else:
+            els.append(gen.element('point', rng))
+    pts = gen.Case('point', els, [])
     nl, nr = len(pts.view), len(rs.view)
     if nl == 0 or nr == 0:
         return []
@@ -149,7 +164,7 @@ def c_sjoin(rng):
     return out
 
 
-c_sjoin.n = {'quick': 40, 'thorough': 300}
+c_sjoin.n = {'quick': 80, 'thorough': 500}
 
 
 # ------------------------------------------------------------------ C20 active geometry (pandas)
@@ -369,6 +384,26 @@ def c_parquet(rng):
             need = {i for i, el in enumerate(aview) if oracle.intersects_bounds(akind, el, eff)}
             if not need <= got:
                 out.append(V('parquet.pruning-lost-rows', f'box {bx}: missing {need - got}', dict(recipe, box=bx)))
+            # the pruned read keeps the requested active geometry in every partition and in the computed frame
+            if rb.npartitions and got:
+                for k in range(rb.npartitions):
+                    pf = rb.partitions[k].compute()
+                    if isinstance(pf, sp.GeoDataFrame) and len(pf) and pf.geometry.name != act:
+                        out.append(V(f'parquet.pruned-partition-active-geometry/{"first" if act == "pts" else "not-first"}',
+                                     f'partition {k}: {pf.geometry.name} vs {act}', dict(recipe, box=bx)))
+                        break
+                try:
+                    if rb.compute().geometry.name != act:
+                        out.append(V(f'parquet.pruned-compute-active-geometry/{"first" if act == "pts" else "not-first"}', '', dict(recipe, box=bx)))
+                except Exception as e:
+                    out.append(V(f'parquet.pruned-compute-active-geometry/raises-{type(e).__name__}', f'{e}', dict(recipe, box=bx)))
+                pbk = rb[act].partition_bounds
+                prts = [rb.partitions[k].compute() for k in range(rb.npartitions)]
+                for k, pf in enumerate(prts):
+                    e = oracle.total_bounds(akind, [aview[i] for i in pf['v']])
+                    if not all(nan_eq(a, b) for a, b in zip(pbk.iloc[k].values, e)):
+                        out.append(V('parquet.pruned-partition_bounds', f'partition {k}: {list(pbk.iloc[k].values)} vs {e}', dict(recipe, box=bx)))
+                        break
     except Exception as e:
         out.append(V(f'parquet/raises-{type(e).__name__}', f'{e}', recipe))
     finally:
@@ -379,7 +414,7 @@ def c_parquet(rng):
 c_parquet.n = {'quick': 25, 'thorough': 150}
 
 
-@check(('C06', 'C09', 'C12'), 'dask.row-filter-after-cached-bounds')
+@check(('C06', 'C09', 'C12', 'C13', 'C17'), 'dask.row-filter-after-cached-bounds')
 def c_dask_filter(rng):
     """multi-step: cache the partition bounds (partition_sindex / cx), filter rows, then query / pack the filtered
     frame and query the original again: cached extents of the unfiltered frame must not be reused"""
@@ -434,3 +469,63 @@ def c_dask_filter(rng):
 
 
 c_dask_filter.n = {'quick': 15, 'thorough': 100}
+
+
+@check(('C12', 'C06'), 'dask.parquet-several-datasets')
+def c_parquet_multi(rng):
+    """several datasets combined by a list (in a non-sorted order) or a glob: bounds rows follow the partitions as
+    they are loaded"""
+    import shutil
+    import tempfile
+    import dask
+    import spatialpandas as sp
+    from spatialpandas.io import read_parquet_dask
+    out = []
+    d = tempfile.mkdtemp(prefix='rtc_pqm_')
+    names = rng.choice([['west', 'east'], ['b', 'a'], ['ds1', 'ds10', 'ds2'], ['z', 'm', 'a']])
+    recipe = {'names': names}
+    try:
+        with dask.config.set(scheduler='synchronous'):
+            views = {}
+            base = 0
+            for nm in names:
+                n = rng.choice([3, 4, 6])
+                els = [[float(base + i), float(rng.randint(0, 5))] for i in range(n)]
+                base += 100
+                views[nm] = els
+                df = sp.GeoDataFrame({'geometry': gen.build('point', els), 'v': [int(e[0]) for e in els]})
+                _ddf(df, rng.choice([1, 2])).to_parquet(f'{d}/{nm}.parq')
+            mode = rng.choice(['list', 'glob'])
+            recipe['mode'] = mode
+            paths = [f'{d}/{nm}.parq' for nm in names] if mode == 'list' else f'{d}/*.parq'
+            r = read_parquet_dask(paths)
+            pb = r.geometry.partition_bounds
+            allv = {int(e[0]): e for els in views.values() for e in els}
+            parts = [r.partitions[k].compute() for k in range(r.npartitions)]
+            if len(pb) != len(parts):
+                out.append(V(f'parquet.multi-dataset-bounds-count/{mode}', f'{len(pb)} vs {len(parts)}', recipe))
+            for k, pf in enumerate(parts):
+                e = oracle.total_bounds('point', [allv[int(v)] for v in pf['v']])
+                if k < len(pb) and not all(nan_eq(a, b) for a, b in zip(pb.iloc[k].values, e)):
+                    out.append(V(f'parquet.multi-dataset-partition_bounds/{mode}', f'partition {k}: {list(pb.iloc[k].values)} vs {e}', recipe))
+                    break
+            if mode == 'list':
+                got = [int(v) for pf in parts for v in pf['v']]
+                exp = [int(e[0]) for nm in names for e in views[nm]]
+                if got != exp:
+                    out.append(V('parquet.multi-dataset-order/list', f'{got} vs {exp}', recipe))
+            nm = rng.choice(names)
+            xs = [e[0] for e in views[nm]]
+            bx = (min(xs) - 0.5, -1.0, max(xs) + 0.5, 6.0)
+            rb = read_parquet_dask(paths, bounds=bx)
+            gotv = sorted(int(v) for v in rb.compute()['v']) if rb.npartitions else []
+            if not set(int(x) for x in xs) <= set(gotv):
+                out.append(V(f'parquet.multi-dataset-pruning-lost-rows/{mode}', f'{gotv} misses {xs}', recipe))
+    except Exception as e:
+        out.append(V(f'parquet.multi-dataset/raises-{type(e).__name__}', f'{e}', recipe))
+    finally:
+        shutil.rmtree(d, ignore_errors=True)
+    return out
+
+
+c_parquet_multi.n = {'quick': 10, 'thorough': 60}
